@@ -285,6 +285,8 @@ def entry_oracle(ctx):
             s2.seek(start)
             bs = call(con.build_stream, value, s2, **params)
             fn2 = os.path.join(d, "out.bin")
+            with open(fn2, "wb") as f:
+                f.write(b"previous, longer content of the same file " * 3)       # (what a file held before is not part of the result)
             bf = call(con.build_file, value, fn2, **params)
             if b.ok:
                 if not bs.ok or s2.getvalue()[start:] != b.value:
